@@ -293,8 +293,10 @@ def predicate(c, obs):
         ext = scan[1]
         if ext > len(bs):
             return "the shared view reports an extent of %d bytes, the input has %d" % (ext, len(bs))
+    if obs[-2] != 0:
+        return "%d element(s) produced by a shared accessor / iterator lie outside the input" % obs[-2]
     if obs[-1] != 0:
-        return "%d element(s) produced by a shared accessor / iterator lie outside the input" % obs[-1]
+        return "%d fixed-size value(s) handed out by a shared accessor have an invalid bit pattern" % obs[-1]
     return None
 
 
